@@ -94,7 +94,7 @@ def gen(rng, k):
     zmode = k % 3
     zs = [None, np.round(rng.uniform(-2, 2, 2), 2).tolist(), np.round(rng.uniform(-2, 2, (nfr, 2)), 2).tolist()][zmode]
     return {"seed": int(rng.integers(1 << 30)), "radius": radius, "search": search, "shape": shape, "zero": zero, "a": a, "b": b,
-            "nframes": nfr, "zero_shift": zs, "partitions": partitions_of(rng, nfr), "steps": steps,
+            "nframes": nfr, "zero_shift": zs, "partitions": partitions_of(rng, nfr), "steps": steps, "exact_min_match": k % 4 == 2,
             "correlation": corr_name, "match": ("fast", "affine")[k % 2],
             "layout": ("mgrid", "list", "mgrid", "pair2", "list", "mgrid")[(k // 2) % 6],
             "pairs": [[[0, 0], [1, 0]], [[0, 1], [-1, 1]], [[1, 2], [0, -1]], [[0, 0], [0, 1]]][int(rng.integers(4))], "tolerance": float(rng.choice([1.0, 1.5, 3.0])),
@@ -126,98 +126,107 @@ def run_case(kind, q):
         if kind == "refine":
             frames = render(q, rng)
             pat = impl.make_pattern("background_subtraction", q["radius"], search=q.get("search", q["radius"] * 2), radius_outer=q["radius"] * 1.5)
-            matcher = grm.Matcher(tolerance=q["tolerance"], min_weight=0.1, min_match=3)
-            zero0, a0, b0 = (np.array(q[k], dtype=np.float64) for k in ("zero", "a", "b"))
-            zero_arg = zero0.copy() if q["zero_as"] == "ndarray" else tuple(zero0.tolist())
-            a_arg, b_arg = a0.copy(), b0.copy()
-            indices = np.mgrid[-3:4, -3:4] if q["layout"] == "mgrid" else np.mgrid[-3:4, -3:4].reshape(2, -1).T.copy()
-            if q["layout"] == "pair2":        # a list of exactly two (i, j) pairs: shape (2, 2), still the list layout
-                indices = np.array(q["pairs"])
-            zs = q["zero_shift"]
-            corr_name = q["correlation"]
-            if corr_name == "sparse":
-                zs = None
-            zarg = None if zs is None else (np.asarray(zs, dtype=np.float64) if np.ndim(zs) == 1 else
-                                            FastCorrelationUDF.aux_data(np.asarray(zs), kind="nav", extra_shape=(2,), dtype=np.float64))
-            ds = MemoryDataSet(frames)
-            # observe which correlation UDF actually does the work ("dispatches to the requested correlation method")
-            import libertem_blobfinder.udf.correlation as ucorr
-            ran = set()
-            saved = {}
-            for cname_, cls_, meth_ in (("fast", ucorr.FastCorrelationUDF, "process_frame"),
-                                        ("fullframe", ucorr.FullFrameCorrelationUDF, "process_frame"),
-                                        ("sparse", ucorr.SparseCorrelationUDF, "process_tile")):
-                orig_ = cls_.__dict__[meth_]
-                saved[(cls_, meth_)] = orig_
+            # (second pass, some cases: the matcher's min_match set to EXACTLY the number of usable peaks of frame 0 -- a frame with
+            # just enough peaks is matched like any other)
+            mm_ = 3
+            for pass_ in range(2 if q.get("exact_min_match") and q["match"] == "fast" else 1):
+                matcher = grm.Matcher(tolerance=q["tolerance"], min_weight=0.1, min_match=mm_)
+                zero0, a0, b0 = (np.array(q[k], dtype=np.float64) for k in ("zero", "a", "b"))
+                zero_arg = zero0.copy() if q["zero_as"] == "ndarray" else tuple(zero0.tolist())
+                a_arg, b_arg = a0.copy(), b0.copy()
+                indices = np.mgrid[-3:4, -3:4] if q["layout"] == "mgrid" else np.mgrid[-3:4, -3:4].reshape(2, -1).T.copy()
+                if q["layout"] == "pair2":        # a list of exactly two (i, j) pairs: shape (2, 2), still the list layout
+                    indices = np.array(q["pairs"])
+                zs = q["zero_shift"]
+                corr_name = q["correlation"]
+                if corr_name == "sparse":
+                    zs = None
+                zarg = None if zs is None else (np.asarray(zs, dtype=np.float64) if np.ndim(zs) == 1 else
+                                                FastCorrelationUDF.aux_data(np.asarray(zs), kind="nav", extra_shape=(2,), dtype=np.float64))
+                ds = MemoryDataSet(frames)
+                # observe which correlation UDF actually does the work ("dispatches to the requested correlation method")
+                import libertem_blobfinder.udf.correlation as ucorr
+                ran = set()
+                saved = {}
+                for cname_, cls_, meth_ in (("fast", ucorr.FastCorrelationUDF, "process_frame"),
+                                            ("fullframe", ucorr.FullFrameCorrelationUDF, "process_frame"),
+                                            ("sparse", ucorr.SparseCorrelationUDF, "process_tile")):
+                    orig_ = cls_.__dict__[meth_]
+                    saved[(cls_, meth_)] = orig_
 
-                def mk(orig_=orig_, cname_=cname_):
-                    def wrapped(self, *a_, **k_):
-                        ran.add(cname_)
-                        return orig_(self, *a_, **k_)
-                    return wrapped
-                setattr(cls_, meth_, mk())
-            try:
-                res, used = run_refine(Context(partitions=q["partitions"]), ds, zero=zero_arg, a=a_arg, b=b_arg,
-                                       match_pattern=pat, matcher=matcher, correlation=corr_name, match=q["match"],
-                                       indices=indices, steps=q.get("steps", 3), zero_shift=zarg)
-            except Exception as e:
-                return [f"run_refine({corr_name}, {q['match']}) raised {type(e).__name__}: {e}"]
-            finally:
-                for (cls_, meth_), orig_ in saved.items():
-                    setattr(cls_, meth_, orig_)
-            if ran != {corr_name}:
-                msgs.append(f"run_refine(correlation={corr_name!r}) ran the correlation method(s) {sorted(ran)}")
-            if q["zero_as"] == "ndarray" and not np.array_equal(zero_arg, zero0):
-                msgs.append(f"run_refine modified the caller's zero array: {zero0.tolist()} -> {np.asarray(zero_arg).tolist()}")
-            want_idx, want_peaks = frame_peaks(fy=q["shape"][0], fx=q["shape"][1], zero=zero0, a=a0, b=b0, r=pat.search,
-                                               indices=indices)
-            if not np.array_equal(used, want_idx):
-                msgs.append("returned indices are not the lattice positions with margin pattern.search")
-            # independent of frame_peaks: the half-open margin rule of the statement, r = pattern.search
-            flat_idx = indices.reshape(2, -1).T if q["layout"] == "mgrid" else indices
-            pos = zero0 + flat_idx[:, :1] * a0 + flat_idx[:, 1:] * b0
-            r_ = float(pat.search)
-            keep = (pos[:, 0] >= r_) & (pos[:, 0] < q["shape"][0] - r_) & (pos[:, 1] >= r_) & (pos[:, 1] < q["shape"][1] - r_)
-            # positions closer than 1e-9 to a margin are left out of the comparison (float rounding of zero + i*a + j*b)
-            dist = np.min(np.abs(np.stack([pos[:, 0] - r_, q["shape"][0] - r_ - pos[:, 0], pos[:, 1] - r_, q["shape"][1] - r_ - pos[:, 1]])), axis=0)
-            sure = dist > 1e-9
-            used_set = {tuple(int(v) for v in u) for u in np.asarray(used).reshape(-1, 2)}
-            for ii, (ix, kp, su) in enumerate(zip(flat_idx, keep, sure)):
-                if su and (tuple(int(v) for v in ix) in used_set) != bool(kp):
-                    msgs.append(f"run_refine {'dropped' if kp else 'kept'} lattice index {ix.tolist()} at {pos[ii].tolist()} although "
-                                f"the margin rule search={r_} <= p < {q['shape']} - search says otherwise")
-                    break
-            for f in range(q["nframes"]):
-                z = np.zeros(2) if zs is None else (np.asarray(zs) if np.ndim(zs) == 1 else np.asarray(zs)[f])
-                args = dict(centers=res["centers"].data[f], refineds=res["refineds"].data[f],
-                            peak_values=res["peak_values"].data[f], peak_elevations=res["peak_elevations"].data[f])
-                ref_matcher = grm.Matcher(tolerance=q["tolerance"], min_weight=0.1, min_match=3)
-                if q["match"] == "fast":
-                    m = ref_matcher.fastmatch(zero=zero0 + z, a=a0, b=b0, **args)
-                else:
-                    m = ref_matcher.affinematch(indices=want_idx, **args)
-                for nm, want in (("zero", m.zero), ("a", m.a), ("b", m.b), ("selector", m.selector), ("error", m.error)):
-                    got = res[nm].data[f]
-                    w = np.asarray(want, dtype=res[nm].data.dtype)
-                    if not np.array_equal(np.asarray(got).ravel(), np.asarray(w).ravel(), equal_nan=True):
-                        msgs.append(f"run_refine({corr_name}, {q['match']}) partitions {q['partitions']} zero_shift "
-                                    f"{'per-frame' if np.ndim(zs) == 2 else zs} zero as {q['zero_as']}: frame {f} stored {nm} "
-                                    f"{np.asarray(got).tolist()} but the matcher returns {np.asarray(w).tolist()} for this frame")
+                    def mk(orig_=orig_, cname_=cname_):
+                        def wrapped(self, *a_, **k_):
+                            ran.add(cname_)
+                            return orig_(self, *a_, **k_)
+                        return wrapped
+                    setattr(cls_, meth_, mk())
+                try:
+                    res, used = run_refine(Context(partitions=q["partitions"]), ds, zero=zero_arg, a=a_arg, b=b_arg,
+                                           match_pattern=pat, matcher=matcher, correlation=corr_name, match=q["match"],
+                                           indices=indices, steps=q.get("steps", 3), zero_shift=zarg)
+                except Exception as e:
+                    return [f"run_refine({corr_name}, {q['match']}) raised {type(e).__name__}: {e}"]
+                finally:
+                    for (cls_, meth_), orig_ in saved.items():
+                        setattr(cls_, meth_, orig_)
+                if ran != {corr_name}:
+                    msgs.append(f"run_refine(correlation={corr_name!r}) ran the correlation method(s) {sorted(ran)}")
+                if q["zero_as"] == "ndarray" and not np.array_equal(zero_arg, zero0):
+                    msgs.append(f"run_refine modified the caller's zero array: {zero0.tolist()} -> {np.asarray(zero_arg).tolist()}")
+                want_idx, want_peaks = frame_peaks(fy=q["shape"][0], fx=q["shape"][1], zero=zero0, a=a0, b=b0, r=pat.search,
+                                                   indices=indices)
+                if not np.array_equal(used, want_idx):
+                    msgs.append("returned indices are not the lattice positions with margin pattern.search")
+                # independent of frame_peaks: the half-open margin rule of the statement, r = pattern.search
+                flat_idx = indices.reshape(2, -1).T if q["layout"] == "mgrid" else indices
+                pos = zero0 + flat_idx[:, :1] * a0 + flat_idx[:, 1:] * b0
+                r_ = float(pat.search)
+                keep = (pos[:, 0] >= r_) & (pos[:, 0] < q["shape"][0] - r_) & (pos[:, 1] >= r_) & (pos[:, 1] < q["shape"][1] - r_)
+                # positions closer than 1e-9 to a margin are left out of the comparison (float rounding of zero + i*a + j*b)
+                dist = np.min(np.abs(np.stack([pos[:, 0] - r_, q["shape"][0] - r_ - pos[:, 0], pos[:, 1] - r_, q["shape"][1] - r_ - pos[:, 1]])), axis=0)
+                sure = dist > 1e-9
+                used_set = {tuple(int(v) for v in u) for u in np.asarray(used).reshape(-1, 2)}
+                for ii, (ix, kp, su) in enumerate(zip(flat_idx, keep, sure)):
+                    if su and (tuple(int(v) for v in ix) in used_set) != bool(kp):
+                        msgs.append(f"run_refine {'dropped' if kp else 'kept'} lattice index {ix.tolist()} at {pos[ii].tolist()} although "
+                                    f"the margin rule search={r_} <= p < {q['shape']} - search says otherwise")
                         break
-            # correlated peak positions: rounded lattice positions + rounded zero shift
-            if corr_name != "sparse":
                 for f in range(q["nframes"]):
                     z = np.zeros(2) if zs is None else (np.asarray(zs) if np.ndim(zs) == 1 else np.asarray(zs)[f])
-                    pk = want_peaks.astype(int) + np.round(z).astype(int)
-                    c = pat.get_crop_size()
-                    if res["centers"].data[f].shape != pk.shape:
-                        msgs.append(f"frame {f}: {res['centers'].data[f].shape[0]} positions were correlated, the margin rule "
-                                    f"with r = pattern.search selects {pk.shape[0]}")
+                    args = dict(centers=res["centers"].data[f], refineds=res["refineds"].data[f],
+                                peak_values=res["peak_values"].data[f], peak_elevations=res["peak_elevations"].data[f])
+                    ref_matcher = grm.Matcher(tolerance=q["tolerance"], min_weight=0.1, min_match=mm_)
+                    if q["match"] == "fast":
+                        m = ref_matcher.fastmatch(zero=zero0 + z, a=a0, b=b0, **args)
+                    else:
+                        m = ref_matcher.affinematch(indices=want_idx, **args)
+                    for nm, want in (("zero", m.zero), ("a", m.a), ("b", m.b), ("selector", m.selector), ("error", m.error)):
+                        got = res[nm].data[f]
+                        w = np.asarray(want, dtype=res[nm].data.dtype)
+                        if not np.array_equal(np.asarray(got).ravel(), np.asarray(w).ravel(), equal_nan=True):
+                            msgs.append(f"run_refine({corr_name}, {q['match']}) partitions {q['partitions']} zero_shift "
+                                        f"{'per-frame' if np.ndim(zs) == 2 else zs} zero as {q['zero_as']}: frame {f} stored {nm} "
+                                        f"{np.asarray(got).tolist()} but the matcher returns {np.asarray(w).tolist()} for this frame")
+                            break
+                # correlated peak positions: rounded lattice positions + rounded zero shift
+                if corr_name != "sparse":
+                    for f in range(q["nframes"]):
+                        z = np.zeros(2) if zs is None else (np.asarray(zs) if np.ndim(zs) == 1 else np.asarray(zs)[f])
+                        pk = want_peaks.astype(int) + np.round(z).astype(int)
+                        c = pat.get_crop_size()
+                        if res["centers"].data[f].shape != pk.shape:
+                            msgs.append(f"frame {f}: {res['centers'].data[f].shape[0]} positions were correlated, the margin rule "
+                                        f"with r = pattern.search selects {pk.shape[0]}")
+                            break
+                        d = res["centers"].data[f] - pk
+                        if np.any(d < -c) or np.any(d > c - 1):
+                            msgs.append(f"frame {f}: centres are not within the windows of the lattice positions shifted by the zero shift")
+                            break
+                if pass_ == 0 and q.get("exact_min_match"):
+                    n0 = int(np.count_nonzero(np.asarray(res["peak_elevations"].data[0]) >= 0.1))
+                    if n0 < 3 or msgs:
                         break
-                    d = res["centers"].data[f] - pk
-                    if np.any(d < -c) or np.any(d > c - 1):
-                        msgs.append(f"frame {f}: centres are not within the windows of the lattice positions shifted by the zero shift")
-                        break
+                    mm_ = n0
         elif kind == "integration":
             shape = tuple(q["shape"])
             frames = rng.poisson(20, (q["nframes"],) + shape).astype(q["dtype"])
